@@ -243,16 +243,32 @@ def h_chain_mixed(ctx):
         for i in range(2):
             ctx.claim("steps without predict do not contribute to the prediction", eq(pred[i], P(2, 1, 0, qe[i], qn[i])))
     elif kind == "nested":
-        inner = vd.Chain([("a", UFGridder(ident=3)), ("b", UFGridder(ident=4))])
-        chain = vd.Chain([("first", UFGridder(ident=1)), ("inner", inner), ("uf", last)])
-        chain.fit(coords, d, w)
-        rec = fits_of(last)[0]
-        for i in range(npts):
-            exp = d[i] - P(1, 1, 0, e[i], n[i]) - P(3, 1, 0, e[i], n[i]) - P(4, 1, 0, e[i], n[i])
-            ctx.claim("a nested chain removes the sum of its steps before the next step", eq(rec["data"][i], exp))
+        nc = cfg.get("ncomp", 1)
+        last = UFGridder(ident=2, ncomp=nc)
+        inner = vd.Chain([("a", UFGridder(ident=3, ncomp=nc)), ("b", UFGridder(ident=4, ncomp=nc))])
+        chain = vd.Chain([("first", UFGridder(ident=1, ncomp=nc)), ("inner", inner), ("uf", last)])
+        comps = [d] + [ctx.reals("d%dx" % c, npts) for c in range(1, nc)]
+        f = 1
+        if cfg.get("refit"):
+            # an earlier fit on other data (other size too) must leave no trace
+            oe, on_ = ctx.reals("oe", npts + 1), ctx.reals("on", npts + 1)
+            others = [ctx.reals("od%d" % c, npts + 1) for c in range(nc)]
+            chain.fit((oe, on_), tuple(others) if nc > 1 else others[0])
+            f = 2
+        chain.fit(coords, tuple(comps) if nc > 1 else d, None if w is None else (tuple([w] * nc) if nc > 1 else w))
+        rec = fits_of(last)[-1]
+        rdat = list(rec["data"]) if nc > 1 else [rec["data"]]
+        ctx.claim("one residual array per data component", len(rdat) == nc and all(np.shape(r) == (npts,) for r in rdat))
+        if len(rdat) == nc and all(np.shape(r) == (npts,) for r in rdat):
+            for c in range(nc):
+                for i in range(npts):
+                    exp = comps[c][i] - P(1, f, c, e[i], n[i]) - P(3, f, c, e[i], n[i]) - P(4, f, c, e[i], n[i])
+                    ctx.claim("a nested chain removes the sum of its steps before the next step (component by component, latest fit only)", eq(rdat[c][i], exp))
         pred = chain.predict((qe, qn))
-        for i in range(2):
-            ctx.claim("prediction sums over nested steps too", eq(pred[i], P(1, 1, 0, qe[i], qn[i]) + P(3, 1, 0, qe[i], qn[i]) + P(4, 1, 0, qe[i], qn[i]) + P(2, 1, 0, qe[i], qn[i])))
+        preds = list(pred) if nc > 1 else [pred]
+        for c in range(nc):
+            for i in range(2):
+                ctx.claim("prediction sums over nested steps too", eq(preds[c][i], P(1, f, c, qe[i], qn[i]) + P(3, f, c, qe[i], qn[i]) + P(4, f, c, qe[i], qn[i]) + P(2, f, c, qe[i], qn[i])))
     elif kind == "nested_reduce":
         members = cfg["members"]
         shape = tuple(cfg["bshape"])
@@ -289,14 +305,60 @@ def h_chain_mixed(ctx):
         pred = chain.predict((qe, qn))
         for i in range(2):
             ctx.claim("prediction sums the predicting steps of nested chains", eq(pred[i], P(3, 1, 0, qe[i], qn[i]) + P(2, 1, 0, qe[i], qn[i])))
+    elif kind in ("blockmean", "trend_reduce"):
+        members = cfg["members"]
+        shape = tuple(cfg["bshape"])
+        rw, re_, rs, rn = ctx.real("W"), ctx.real("E"), ctx.real("S"), ctx.real("N")
+        ctx.assume(rw < re_)
+        ctx.assume(rs < rn)
+        region = (rw, re_, rs, rn)
+        for p in range(npts):
+            ctx.assume(stubs.in_block(ctx, e[p], n[p], region, shape, members[p]))
+        if kind == "blockmean":
+            # BlockMean hands on three things: reduced coordinates, block means and the weights it derives
+            mk = lambda: vd.BlockMean(shape=shape, region=region, uncertainty=True)
+            chain = vd.Chain([("mean", mk()), ("uf", last)])
+            chain.fit(coords, d, w)
+            rec = fits_of(last)[0]
+            rc, rd, rwts = mk().filter(coords, d, w)
+            ok = len(rec["coordinates"]) == 2 and np.shape(rec["data"]) == np.shape(rd) and rec["weights"] is not None and np.shape(rec["weights"]) == np.shape(rwts)
+            ctx.claim("step after a BlockMean is fitted on its reduced coordinates, block means and derived weights", ok)
+            if ok:
+                ctx.claim("block means handed on", And([eq(a, b) for a, b in zip(rec["data"], rd)]))
+                ctx.claim("BlockMean's output weights (not the input weights, not None) handed on", And([eq(a, b) for a, b in zip(rec["weights"], rwts)]))
+                ctx.claim("reduced coordinates handed on", And([eq(a, b) for k in range(2) for a, b in zip(rec["coordinates"][k], rc[k])]))
+        else:
+            # a reduction in the middle of a chain receives the residuals of the steps before it
+            red = _mean(ctx)
+            first = UFGridder(ident=1)
+            chain = vd.Chain([("first", first), ("reduce", vd.BlockReduce(red, shape=shape, region=region)), ("uf", last)])
+            chain.fit(coords, d, w)
+            rec = fits_of(last)[0]
+            resid = np.array([d[i] - P(1, 1, 0, e[i], n[i]) for i in range(npts)], dtype=object if ctx.sym else float)
+            rc, rd = vd.BlockReduce(red, shape=shape, region=region).filter(coords, resid)
+            ok = np.shape(rec["data"]) == np.shape(rd)
+            ctx.claim("a reduction after a gridder reduces the residuals, and the next step is fitted on that", ok)
+            if ok:
+                ctx.claim("reduced residuals handed on", And([eq(a, b) for a, b in zip(rec["data"], rd)]))
+                ctx.claim("reduced coordinates handed on", And([eq(a, b) for k in range(2) for a, b in zip(rec["coordinates"][k], rc[k])]))
+            pred = chain.predict((qe, qn))
+            for i in range(2):
+                ctx.claim("prediction sums the predicting steps only", eq(pred[i], P(1, 1, 0, qe[i], qn[i]) + P(2, 1, 0, qe[i], qn[i])))
     elif kind == "vector":
         d2 = ctx.reals("dd", npts)
         v1 = vd.Vector([UFGridder(ident=1), UFGridder(ident=2)])
         v2c = [UFGridder(ident=3), UFGridder(ident=4)]
         chain = vd.Chain([("v1", v1), ("v2", vd.Vector(v2c))])
-        chain.fit(coords, (d, d2), None if w is None else (w, w))
+        w2 = None
+        if w is not None:
+            w2 = ctx.reals("ww", npts)
+            for v in w2:
+                ctx.assume(v > 0)
+        chain.fit(coords, (d, d2), None if w is None else (w, w2))
         for k, src in enumerate((d, d2)):
             rec = fits_of(v2c[k])[0]
+            if w is not None:
+                ctx.claim("second vector's component i is weighted by component i's weights only", rec["weights"] is not None and And([eq(a, b) for a, b in zip(np.ravel(rec["weights"]), (w, w2)[k])]))
             for i in range(npts):
                 ctx.claim("second vector's component i sees component i's residual only", eq(rec["data"][i], src[i] - P(k + 1, 1, 0, e[i], n[i])))
         pred = chain.predict((qe, qn))
@@ -327,6 +389,9 @@ def _cfg_mixed(tier, seed):
         {"kind": "vector", "weighted": True},
         {"kind": "nested_reduce", "members": [1, 0, 1, 0], "bshape": (1, 2), "weighted": True},
         {"kind": "nested_reduce", "members": [0, 0, 1, 0], "bshape": (1, 2), "weighted": False},
+        {"kind": "blockmean", "members": [1, 0, 1], "bshape": (1, 2), "weighted": True, "npts": 3},
+        {"kind": "trend_reduce", "members": [1, 0, 1, 0], "bshape": (1, 2), "weighted": False},
+        {"kind": "nested", "weighted": True, "npts": 3, "ncomp": 2, "refit": True},
     ]
     if tier == "thorough":
         out += [{"kind": "reduce", "members": [3, 0, 3, 2, 0], "bshape": (2, 2), "npts": 5, "weighted": False}, {"kind": "nested", "weighted": True, "npts": 3}]
@@ -337,5 +402,5 @@ HARNESSES = [
     Harness("chain_of_gridders", h_chain_uf, _cfg_chain, bounds="1-4 steps, 1-3 data components, weights or none, inputs of shape (2,2)/(3,)/(1,3), two successive fits on different symbolic datasets, symbolic query points"),
     Harness("filter", h_filter, lambda tier, seed: [{"shape": (2, 2), "ncomp": 1}, {"shape": (3,), "ncomp": 2, "weighted": True}], bounds="symbolic coordinates (+ ignored extra), data with 1-2 components, weights or none"),
     Harness("vector", h_vector, lambda tier, seed: [{"shape": (3,), "ncomp": 2, "weighted": True}, {"shape": (2, 2), "ncomp": 3}], bounds="2-3 components with distinct symbolic data and weights; shapes (3,), (2,2)"),
-    Harness("chain_mixed", h_chain_mixed, _cfg_mixed, bounds="Trend(1) / BlockReduce / nested Chain / Vector steps followed by a recording gridder; 3-5 symbolic points", stubs=["sklearn StandardScaler/LinearRegression/Ridge -> normal-equation contract", "block_split -> C08 contract"], extra_globals=_globals, engine={"oneshot": True}),
+    Harness("chain_mixed", h_chain_mixed, _cfg_mixed, bounds="Trend(1) / BlockReduce (first or mid-chain) / BlockMean / nested Chain (1-2 components, after an earlier fit on other data) / Vector (distinct weights per component) steps followed by a recording gridder; 3-5 symbolic points", stubs=["sklearn StandardScaler/LinearRegression/Ridge -> normal-equation contract", "block_split -> C08 contract"], extra_globals=_globals, engine={"oneshot": True}),
 ]
